@@ -8,7 +8,7 @@
 //                                           R <nerr> <nrows> <ncols> <ntrace> <nwarn_restart>
 //                                           H <hexheading>...      (one line)
 //                                           V <cell>...            (one line per data row; cell = D<hex64> | L<int> | S<hex> | E)
-//                                           T <hex64 x1> <hex64 x2> <hextag> <hex64 cvode_last_good_time>  (one per CALLBACK call, only when `trace 1`)
+//                                           T <hex64 x1> <hex64 x2> <hextag> <hex64 cvode_last_good_time> <reaction_step>  (one per CALLBACK call, only when `trace 1`)
 //                                           E <hex of first 400 chars of the error string>  (when nerr != 0)
 //   trace 0|1                             switch trace printing
 //   curstep <incr 0|1> <reaction_step> <count> <equal 0|1> <n> <hex64 step>*n
@@ -19,7 +19,7 @@
 #include <vector>
 #include <string>
 
-struct Ev { double x1, x2; std::string tag; double aux; };
+struct Ev { double x1, x2; std::string tag; double aux; int rstep; };
 static std::vector<Ev> g_trace;
 static bool g_trace_on = false;
 static const size_t TRACE_MAX = 200000;
@@ -27,7 +27,8 @@ static const size_t TRACE_MAX = 200000;
 static double cb(double x1, double x2, const char* str, void* cookie) {
   // aux = engine's cvode_last_good_time at the moment of the rate evaluation (0 outside CVODE)
   double aux = cookie ? TestIPhreeqc::engine((IPhreeqc*)cookie)->cvode_last_good_time : 0.0;
-  if (g_trace.size() < TRACE_MAX) g_trace.push_back(Ev{x1, x2, str ? str : "", aux});
+  int rstep = cookie ? TestIPhreeqc::engine((IPhreeqc*)cookie)->reaction_step : 0;
+  if (g_trace.size() < TRACE_MAX) g_trace.push_back(Ev{x1, x2, str ? str : "", aux, rstep});
   return 0.0;
 }
 
@@ -90,7 +91,7 @@ int main() {
       }
       if (g_trace_on) {
         for (const Ev& e : g_trace)
-          std::cout << "T " << hx::hexd(e.x1) << " " << hx::hexd(e.x2) << " " << hx::hex(e.tag) << " " << hx::hexd(e.aux) << "\n";
+          std::cout << "T " << hx::hexd(e.x1) << " " << hx::hexd(e.x2) << " " << hx::hex(e.tag) << " " << hx::hexd(e.aux) << " " << e.rstep << "\n";
       }
       if (nerr != 0) {
         std::string es = p->GetErrorString();
